@@ -667,19 +667,27 @@ def _behaviour(rng, kind, fd):
 
 def _rand_script(rng):
     script = []
+    reg = {"R": set(), "W": set()}
     for _ in range(rng.randint(1, 14)):
         k = rng.random()
         fd = rng.choice(FDS)
         if k < 0.2:
-            script.append(["add_reader", fd, _behaviour(rng, "R", fd)])
+            script.append(["add_reader", fd, _behaviour(rng, "R", fd)]); reg["R"].add(fd)
+            if rng.random() < 0.5:
+                script.append(["ready", "R", fd])
         elif k < 0.3:
-            script.append(["add_writer", fd, _behaviour(rng, "W", fd)])
+            script.append(["add_writer", fd, _behaviour(rng, "W", fd)]); reg["W"].add(fd)
+            if rng.random() < 0.5:
+                script.append(["ready", "W", fd])
         elif k < 0.38:
-            script.append(["remove_reader", fd])
+            script.append(["remove_reader", fd]); reg["R"].discard(fd)
         elif k < 0.43:
-            script.append(["remove_writer", fd])
+            script.append(["remove_writer", fd]); reg["W"].discard(fd)
         elif k < 0.6:
-            script.append(["ready", rng.choice(["R", "R", "W"]), fd])
+            kind = rng.choice(["R", "R", "W"])
+            if reg[kind] and rng.random() < 0.8:
+                fd = rng.choice(sorted(reg[kind]))          # mostly fds somebody is listening to
+            script.append(["ready", kind, fd])
         elif k < 0.65:
             script.append(["unready", rng.choice(["R", "W"]), fd])
         elif k < 0.8:
